@@ -144,8 +144,33 @@ func drawScript(rt *rapid.T, e *env, c *stats.Case) ([]op, []world) {
 	var worlds []world
 	var l1 *core.L1Head
 	n := rapid.IntRange(4, 10).Draw(rt, "nops")
+	// skeleton (half of the cases on the 8188-block base): stores that reach or cross the 8192 window boundary, an optional
+	// graceful restart on the way, an ungraceful restart, then ops that are the FIRST access of the lazily initialised
+	// running event filter (the initializer itself reads and, across the boundary, writes the database)
+	var skeleton []string
+	if e.baseN > 0 && rapid.Bool().Draw(rt, "lazyInitSkeleton") {
+		a := rapid.IntRange(2, 5).Draw(rt, "skStores")
+		g := rapid.IntRange(0, a).Draw(rt, "skGraceful") // a = no graceful restart
+		for i := 0; i < a; i++ {
+			if i == g {
+				skeleton = append(skeleton, "graceful")
+			}
+			skeleton = append(skeleton, "store")
+		}
+		skeleton = append(skeleton, "ungraceful")
+		for i := 0; i < 2; i++ {
+			skeleton = append(skeleton, rapid.SampledFrom([]string{"snapshot", "store", "revert", "snapshot", "l1head"}).Draw(rt, "skTail"))
+		}
+		n = len(skeleton)
+		c.Label("lazy-init-skeleton")
+	}
 	for i := 0; i < n; i++ {
-		kind := rapid.SampledFrom([]string{"store", "store", "store", "store", "revert", "revert", "l1head", "snapshot", "graceful", "ungraceful"}).Draw(rt, "op")
+		var kind string
+		if skeleton != nil {
+			kind = skeleton[i]
+		} else {
+			kind = rapid.SampledFrom([]string{"store", "store", "store", "store", "revert", "revert", "l1head", "snapshot", "graceful", "ungraceful"}).Draw(rt, "op")
+		}
 		if kind == "revert" && ch.Height() <= e.baseN {
 			kind = "store"
 		}
@@ -240,6 +265,15 @@ func runCase(rt *rapid.T, c *stats.Case) {
 	} else {
 		nk := min(W, 3)
 		seen := map[int]bool{}
+		// always include the first commit after the last restart (first access of a lazily initialised filter)
+		for i := len(ops) - 1; i >= 0; i-- {
+			if (ops[i].kind == "graceful" || ops[i].kind == "ungraceful") && commitsAfter[i] < W {
+				seen[commitsAfter[i]+1] = true
+				ks = append(ks, commitsAfter[i]+1)
+				c.Label("fault-at-first-commit-after-restart")
+				break
+			}
+		}
 		for len(ks) < nk {
 			k := rapid.IntRange(1, W).Draw(rt, "k")
 			if !seen[k] {
